@@ -871,12 +871,11 @@ Section Histories.
         unfold token_ok, token_prop. rewrite Hknown. cbn [fst snd]. rewrite Hpub.
         rewrite !andb_true_iff. repeat split; first [exact Hver | exact Hh | exact Hcs | exact Hcc | exact Hte | reflexivity]. }
       split; [|split].
-      + assert (Hjw : verifies t (jwks c {| w_st := state_of (a1, rs1);
-                        w_cache := if c_cache ce && (cache_leeway <? ttl_of ce)%Z
-                                   then (if fx_F2 fx then key_of fx ce (state_of (a1, rs1)) q else key0, t,
-                                         (w_clock w1 + (ttl_of ce - cache_leeway))%Z) :: w_cache w1 else w_cache w1;
-                        w_minted := S (w_minted w1); w_clock := w_clock w1 |}) = true).
-        { erewrite (jwks_spec c _ (a1, rs1)) by reflexivity. exact Hver. }
+      + match goal with
+        | |- exec_judged _ _ _ _ (verifies t (jwks c ?W)) = true =>
+            assert (Hjw : verifies t (jwks c W) = true)
+              by (erewrite (jwks_spec c W (a1, rs1)) by reflexivity; exact Hver)
+        end.
         rewrite Hjw. unfold exec_judged. destruct (is_nil mids) eqn:Hnil.
         * destruct mids; [|discriminate]. simpl in Ecur'. inversion Ecur'; subst a1 rs1. exact Htok.
         * rewrite Htok. apply orb_true_r.
@@ -929,13 +928,14 @@ Section Histories.
     - destruct ov as [o|]; intro H; [apply V in H; exact H | inversion H; repeat split].
   Qed.
 
-  Lemma steps_ok ops : forall cur seen w,
+  Lemma steps_ok ops : forall cur seen w clock,
+    clock = w_clock w ->
     winv cur seen w ->
     incl (accepted_of (c_keyid c) (files_of ops)) A ->
     (fx_F2 fx = false -> c_cache c = true -> no_mid_accept ops = true) ->
-    obs_ok c cur seen (w_clock w) ops (steps fx c w ops) = true.
+    obs_ok c cur seen clock ops (steps fx c w ops) = true.
   Proof.
-    induction ops as [|o ops IH]; intros cur seen w Hw Hincl Hnm; [reflexivity|].
+    induction ops as [|o ops IH]; intros cur seen w clock Hclock Hw Hincl Hnm; [reflexivity|]. subst clock.
     assert (Hnm' : fx_F2 fx = false -> c_cache c = true -> no_mid_accept ops = true).
     { intros H1 H2. specialize (Hnm H1 H2). simpl in Hnm. apply andb_true_iff in Hnm. apply Hnm. }
     destruct o as [twin ov q now mids | f | | d].
@@ -948,9 +948,9 @@ Section Histories.
         { intros x Hx. apply Hincl. apply in_or_app. left. exact Hx. }
         { intros H1 H2. specialize (Hnm H1 H2). simpl in Hnm. apply andb_true_iff in Hnm.
           destruct Hnm as [Hnm0 _]. destruct (accepted_of (c_keyid c) mids); [reflexivity | discriminate]. }
-        rewrite He. rewrite Hok. simpl. rewrite <- Hclk. apply IH; [exact Hw' | | exact Hnm'].
+        rewrite He. rewrite Hok. simpl. apply IH; [symmetry; exact Hclk | exact Hw' | | exact Hnm'].
         intros x Hx. apply Hincl. apply in_or_app. right. exact Hx.
-      + apply IH; [exact Hw | | exact Hnm'].
+      + apply IH; [reflexivity | exact Hw | | exact Hnm'].
         intros x Hx. apply Hincl. apply in_or_app. right. exact Hx.
     - (* reload *)
       cbn [steps step]. cbn [files_of flat_map] in Hincl. fold (files_of ops) in Hincl.
@@ -962,13 +962,13 @@ Section Histories.
       { intros x Hx. apply Hincl. apply in_or_app. right. exact Hx. }
       unfold reload in *. destruct (load (c_keyid c) f) as [st| |] eqn:L.
       + apply load_sound in L as [cur' [Hacc ->]]. cbn [obs_ok]. rewrite Hacc in *. simpl in Hw1, Hclk.
-        rewrite <- Hclk. apply IH; assumption.
+        apply IH; try assumption; try reflexivity.
       + destruct (spec_accept (c_keyid c) f) as [cur'|] eqn:Hacc.
         * apply load_complete in Hacc. rewrite Hacc in L. discriminate.
-        * cbn [obs_ok]. rewrite Hacc. apply IH; assumption.
+        * cbn [obs_ok]. rewrite Hacc. apply IH; try assumption; try reflexivity.
       + destruct (spec_accept (c_keyid c) f) as [cur'|] eqn:Hacc.
         * apply load_complete in Hacc. rewrite Hacc in L. discriminate.
-        * cbn [obs_ok]. rewrite Hacc. apply IH; assumption.
+        * cbn [obs_ok]. rewrite Hacc. apply IH; try assumption; try reflexivity.
     - (* JWKS *)
       cbn [steps step obs_ok]. pose proof Hw as [Hst]. rewrite (jwks_spec c w cur Hst).
       assert (Hj : jwks_ok c cur (spec_published (c_before c) (c_after c) (snd cur)) = true).
@@ -978,11 +978,10 @@ Section Histories.
           apply in_app_or in Hj as [Hj|Hj]; [rewrite (spec_others_public _ _ Hj); reflexivity|].
           apply in_app_or in Hj as [Hj|Hj]; [|rewrite (spec_others_public _ _ Hj); reflexivity].
           unfold spec_jwks in Hj. apply in_map_iff in Hj as [r [<- _]]. reflexivity. }
-      rewrite Hj. simpl. apply IH; assumption.
+      rewrite Hj. simpl. apply IH; try assumption; try reflexivity.
     - (* the cache's clock advances *)
       cbn [steps step obs_ok].
-      change (w_clock w + d)%Z with (w_clock {| w_st := w_st w; w_cache := w_cache w; w_minted := w_minted w; w_clock := (w_clock w + d)%Z |}).
-      apply IH; [| exact Hincl | exact Hnm'].
+      apply IH; [reflexivity | | exact Hincl | exact Hnm'].
       destruct Hw. constructor; assumption.
   Qed.
 End Histories.
@@ -1020,9 +1019,8 @@ Proof.
   destruct (load (c_keyid c) f) as [st| |] eqn:L.
   - apply load_sound in L as [cur [Hacc ->]]. rewrite Hacc. cbn [fst snd].
     destruct cur as [a rs]. destruct (spec_accept_good _ _ _ _ Hacc) as [Hin Halg].
-    change 0%Z with (w_clock (world0 (state_of (a, rs)))).
-    apply steps_ok with (A := accepted_of (c_keyid c) (f :: files_of ops)).
-    + intros Hfx Hre. apply guard_no_clash; [apply G1; exact Hfx | exact Hre].
+    apply steps_ok with (A := accepted_of (c_keyid c) (f :: files_of ops)); [ | reflexivity | | | ].
+    + intros Hfx Hre a0 b0 Ha0 Hb0. exact (guard_no_clash c f ops (G1 Hfx) Hre a0 b0 Ha0 Hb0).
     + constructor; simpl; try assumption.
       * reflexivity.
       * rewrite Hacc. left. reflexivity.
